@@ -52,29 +52,36 @@ def concretize_tables(model, tabs):
 
 def nice_model(solver, tabs, extra=()):
     """prefer witnesses with small integers / quarter-integer reals / short lowercase strings (exactly representable in the engines)"""
-    cons = []
+    cons, cons_inf = [], []
     for t, cols in tabs.items():
         for c, cs in cols.items():
             for x in cs:
                 if x.kind == "i":
-                    cons.append(z3.And(x.val >= -9, x.val <= 9))
+                    e = z3.And(x.val >= -9, x.val <= 9)
+                    cons.append(e)
+                    cons_inf.append(e)
                 elif x.kind == "f":
                     k = z3.FreshInt("q")
-                    cons.append(z3.And(x.val == z3.ToReal(k) / 4, k >= -40, k <= 40))
+                    nice = z3.And(x.val == z3.ToReal(k) / 4, k >= -40, k <= 40)
+                    cons.append(nice)
+                    cons_inf.append(z3.Or(nice, x.val == C.PINF, x.val == C.NINF))
                 elif x.kind == "s":
-                    cons.append(z3.InRe(x.val, z3.Loop(z3.Range("a", "c"), 0, 2)))
+                    e = z3.InRe(x.val, z3.Loop(z3.Range("a", "c"), 0, 2))
+                    cons.append(e)
+                    cons_inf.append(e)
     solver.push()
     try:
         for e in extra:
             solver.add(e)
-        solver.push()
-        solver.add(*cons)
-        r = solver.check()
-        if r == z3.sat:
-            m = solver.model()
+        # inf mode: finite nice values first, then as few infinities as the path needs (soft preference by retrying)
+        for cs in ([cons, cons_inf] if C.INF_ON[0] else [cons]):
+            solver.push()
+            solver.add(*cs)
+            r = solver.check()
+            m = solver.model() if r == z3.sat else None
             solver.pop()
-            return m
-        solver.pop()
+            if m is not None:
+                return m
         if solver.check() == z3.sat:
             return solver.model()
         return None
